@@ -29,7 +29,7 @@ def builder_half(c, tier):
     res = deps.compile_many(jobs)
     accepted, codes = [], {}
     for (src, exe), (kind, n, e), (ok, diags) in zip(jobs, meta, res):
-        if os.path.exists(exe): os.unlink(exe)
+        vlib.discard(exe)
         if kind == "pos" and not ok:
             raise vlib.ToolError("the legal neighbour of a negative case does not compile (renderer problem): %s\n%s" % (e, diags[0]["rendered"][:600] if diags else ""))
         if kind == "neg":
